@@ -63,6 +63,10 @@ def calculate_checksum_udp(packet: Packet):
 
     calculated_checksum = ones_complement_checksum(pseudo_header)
 
+    # RFC 768: a computed checksum of zero is transmitted as all ones
+    if calculated_checksum == b'\x00\x00':
+        calculated_checksum = bytearray(b'\xff\xff')
+
     packet_checksum = packet.udp.sum.to_bytes(2, 'big')
     logging.info(f"expected checksum: 0x{calculated_checksum.hex()}, packet checksum: 0x{packet_checksum.hex()}")
 
@@ -103,5 +107,10 @@ def calculate_checksum_tcp(packet: Packet):
     packet_checksum = packet.tcp.sum.to_bytes(2, 'big')
 
     logging.info(f"expected checksum: 0x{calculated_checksum.hex()}, packet checksum: 0x{packet_checksum.hex()}")
+
+    # 0x0000 and 0xffff are the same number in one's complement arithmetic: a receiver sums the segment
+    # including its checksum and accepts either (RFC 1071), e.g. after an incremental update (RFC 1624)
+    if calculated_checksum == b'\x00\x00' and packet_checksum == b'\xff\xff':
+        return True
 
     return calculated_checksum == packet_checksum
